@@ -215,6 +215,15 @@ Inductive zev : sstate -> expr -> rvalue -> sstate -> Prop :=
 | ZSwitchRun s n a b v body s1 s2 sw t ts reg s4 : lower n = "do" -> zev s a (RSwitch v) s1 -> zev s1 b (RCode body) s2 ->
     zswitch (enter s2 []) body (sw_start v) sw -> sw_target sw = Some (t :: ts) -> leaf_first (t :: ts) ->
     zblock (enter s2 []) RNil (t :: ts) (BNorm reg) s4 -> zev s (EBinary n a b) (res_of reg) (pop_scope s4)
+(* the chosen block is left early: by exitWith - the switch yields the handler's value -, by breakOut to the name the scope of the switch
+   itself carries (scopeName in the block) - the switch yields the value handed over; a throw and breakOut to a scope outside the switch:
+   ZLSwitchThrow / ZLSwitchBreak of zloopleave below *)
+| ZSwitchExit s n a b v body s1 s2 sw t ts x s4 : lower n = "do" -> zev s a (RSwitch v) s1 -> zev s1 b (RCode body) s2 ->
+    zswitch (enter s2 []) body (sw_start v) sw -> sw_target sw = Some (t :: ts) -> leaf_first (t :: ts) ->
+    zblock (enter s2 []) RNil (t :: ts) (BExit x) s4 -> zev s (EBinary n a b) x (pop_scope s4)
+| ZSwitchBreak s n a b v body s1 s2 sw t ts t0 x s4 : lower n = "do" -> zev s a (RSwitch v) s1 -> zev s1 b (RCode body) s2 ->
+    zswitch (enter s2 []) body (sw_start v) sw -> sw_target sw = Some (t :: ts) -> leaf_first (t :: ts) ->
+    zbreak (enter s2 []) RNil (t :: ts) t0 x s4 -> top_name s4 = t0 -> zev s (EBinary n a b) x (pop_scope s4)
 with zevs : sstate -> list expr -> list rvalue -> sstate -> Prop :=
 | ZNil s : zevs s [] [] s
 | ZCons s e v s1 l vs s2 : zev s e v s1 -> nonnil v -> zevs s1 l vs s2 -> zevs s (e :: l) (v :: vs) s2
@@ -302,6 +311,9 @@ with zthrow : sstate -> rvalue -> list stmt -> rvalue -> sstate -> Prop :=
     zthrow s reg (SExpr (EBinary n a b) :: rest) y (pop_scope s4)
 (* a loop standing as a statement, one of whose rounds is left by a throw (relation zloopleave below) *)
 | ZTLoop s reg e y s3 rest : zloopleave s e (AThrow y) s3 -> zthrow s reg (SExpr e :: rest) y s3
+(* ... and x = e / private _x = e whose expression is left by a throw (raised inside an operand of e: zloopleave) *)
+| ZTAssign s reg n e y s3 rest : zloopleave s e (AThrow y) s3 -> zthrow s reg (SAssign n e :: rest) y s3
+| ZTLocal s reg n e y s3 rest : zloopleave s e (AThrow y) s3 -> zthrow s reg (SLocal n e :: rest) y s3
 (* a block that is left by breakOut to the scope named t, with value v (nil for the unary form): statements that run normally, then
    `breakOut "t"`, `v breakOut "t"`, or a scope construct standing as a statement - call, if-then(-else) - whose own scope is not
    named t and whose block is left that way; the state is the one at the breakOut, the scopes in between closed *)
@@ -320,6 +332,8 @@ with zbreak : sstate -> rvalue -> list stmt -> string -> rvalue -> sstate -> Pro
     zbreak s reg (SExpr (EBinary n a b) :: rest) t v (pop_scope s3)
 (* a loop standing as a statement, one of whose rounds is left by breakOut to a scope outside the loop *)
 | ZKLoop s reg e t v s3 rest : zloopleave s e (ABreak t v) s3 -> zbreak s reg (SExpr e :: rest) t v s3
+| ZKAssign s reg n e t v s3 rest : zloopleave s e (ABreak t v) s3 -> zbreak s reg (SAssign n e :: rest) t v s3
+| ZKLocal s reg n e t v s3 rest : zloopleave s e (ABreak t v) s3 -> zbreak s reg (SLocal n e :: rest) t v s3
 (* LEAVING A LOOP.  A loop - forEach / count / apply / select / findIf, for, while - is left by a throw or by breakOut when, after
    rounds that run normally, the body (for while: the condition or the body) of a round is left that way (zthrow / zbreak; for breakOut
    the scope of the round is not the named one).  The state is the one at the exit with the scope of the round closed. *)
@@ -334,6 +348,30 @@ with zloopleave : sstate -> expr -> abr -> sstate -> Prop :=
     for_empty fr to st = false -> leaf_first body -> zfleave var to st s2 fr true body ab s3 -> zloopleave s (EBinary n a b) ab s3
 | ZLWhile s n a b cond body s1 s2 ab s3 : lower n = "do" -> zev s a (RWhile cond) s1 -> zev s1 b (RCode body) s2 ->
     leaf_first cond -> leaf_first body -> zwleave cond body s2 true ab s3 -> zloopleave s (EBinary n a b) ab s3
+(* ... and switch v do {..} whose chosen block is left by a throw, or by breakOut to a scope outside the switch *)
+| ZLSwitchThrow s n a b v body s1 s2 sw t ts y s4 : lower n = "do" -> zev s a (RSwitch v) s1 -> zev s1 b (RCode body) s2 ->
+    zswitch (enter s2 []) body (sw_start v) sw -> sw_target sw = Some (t :: ts) -> leaf_first (t :: ts) ->
+    zthrow (enter s2 []) RNil (t :: ts) y s4 -> zloopleave s (EBinary n a b) (AThrow y) (pop_scope s4)
+| ZLSwitchBreak s n a b v body s1 s2 sw t ts t0 x s4 : lower n = "do" -> zev s a (RSwitch v) s1 -> zev s1 b (RCode body) s2 ->
+    zswitch (enter s2 []) body (sw_start v) sw -> sw_target sw = Some (t :: ts) -> leaf_first (t :: ts) ->
+    zbreak (enter s2 []) RNil (t :: ts) t0 x s4 -> top_name s4 <> t0 -> zloopleave s (EBinary n a b) (ABreak t0 x) (pop_scope s4)
+(* AN EXIT RAISED INSIDE AN OPERAND: an expression is left when an operand is - the operand of a unary operator, the left operand of a
+   binary one, an element of an array -, or when it is call {..} / x call {..} / if-then(-else) whose block is left through its scope
+   (zscopeleave).  With operands already evaluated and waiting on the operand stack - the right operand of a binary operator, a later
+   element of an array - this is stated for breakOut only (ZLBinR, ZELTl): pop_clearing drops the waiting operands with the regions of the
+   frames it removes, whereas after a throw they would lie under the handler's nil, which the region invariant (`under`) excludes. *)
+| ZLUn s n a ab s1 : (forall k, a <> ENum k) -> zloopleave s a ab s1 -> zloopleave s (EUnary n a) ab s1
+| ZLBinL s n a b ab s1 : zloopleave s a ab s1 -> zloopleave s (EBinary n a b) ab s1
+| ZLBinR s n a b va t v s1 s2 : zev s a va s1 -> zloopleave s1 b (ABreak t v) s2 -> zloopleave s (EBinary n a b) (ABreak t v) s2
+| ZLArr s l ab s1 : zelemsleave s l ab s1 -> zloopleave s (EArr l) ab s1
+| ZLCallU s n a b s1 ab s2 : lower n = "call" -> (forall k, a <> ENum k) -> zev s a (RCode b) s1 ->
+    zscopeleave s1 [("_this", this_of s1)] b ab s2 -> zloopleave s (EUnary n a) ab s2
+| ZLCallB s n a x va b s1 s2 ab s3 : lower n = "call" -> zev s a va s1 -> nonnil va -> zev s1 x (RCode b) s2 ->
+    zscopeleave s2 [("_this", va)] b ab s3 -> zloopleave s (EBinary n a x) ab s3
+| ZLThen s n a b blk s1 s2 ab s3 : lower n = "then" -> zev s a (RIf true) s1 -> zev s1 b (RCode blk) s2 ->
+    zscopeleave s2 [] blk ab s3 -> zloopleave s (EBinary n a b) ab s3
+| ZLThenElse s n a b c x0 y0 s1 s2 ab s3 : lower n = "then" -> zev s a (RIf c) s1 -> zev s1 b (RArr [RCode x0; RCode y0]) s2 ->
+    zscopeleave s2 [] (if c then x0 else y0) ab s3 -> zloopleave s (EBinary n a b) ab s3
 with zileave : lkind -> sstate -> list rvalue -> nat -> list stmt -> rvalue -> abr -> sstate -> Prop :=
 | ZILCons k s x rest i body acc reg s1 acc1 ab s' :
     zblock (enter s (kvars k i x)) (match i with O => RNil | _ => RNone end) body (BNorm reg) s1 ->
@@ -371,7 +409,15 @@ with zwleave : list stmt -> list stmt -> sstate -> bool -> abr -> sstate -> Prop
     zthrow (set_top_vars s1 []) RNone body y s2 -> zwleave cond body s first (AThrow y) (pop_scope s2)
 | ZWLBreakBody cond body s (first:bool) s1 t v s2 :
     zblock (enter s []) (if first then RNil else RNone) cond (BNorm (RBool true)) s1 ->
-    zbreak (set_top_vars s1 []) RNone body t v s2 -> top_name s2 <> t -> zwleave cond body s first (ABreak t v) (pop_scope s2).
+    zbreak (set_top_vars s1 []) RNone body t v s2 -> top_name s2 <> t -> zwleave cond body s first (ABreak t v) (pop_scope s2)
+(* a block in a scope of its own that is left through that scope *)
+with zscopeleave : sstate -> list (string*rvalue) -> list stmt -> abr -> sstate -> Prop :=
+| ZSLThrow s vars b y s2 : zthrow (enter s vars) RNil b y s2 -> zscopeleave s vars b (AThrow y) (pop_scope s2)
+| ZSLBreak s vars b t v s2 : zbreak (enter s vars) RNil b t v s2 -> top_name s2 <> t -> zscopeleave s vars b (ABreak t v) (pop_scope s2)
+(* the elements of an array: the first one is left, or - for breakOut - a later one after elements that were evaluated *)
+with zelemsleave : sstate -> list expr -> abr -> sstate -> Prop :=
+| ZELHd s e l ab s1 : zloopleave s e ab s1 -> zelemsleave s (e :: l) ab s1
+| ZELTl s e v l t v0 s1 s2 : zev s e v s1 -> nonnil v -> zelemsleave s1 l (ABreak t v0) s2 -> zelemsleave s (e :: l) (ABreak t v0) s2.
 
 Scheme zev_i := Induction for zev Sort Prop
   with zevs_i := Induction for zevs Sort Prop
@@ -385,9 +431,11 @@ Scheme zev_i := Induction for zev Sort Prop
   with zloopleave_i := Induction for zloopleave Sort Prop
   with zileave_i := Induction for zileave Sort Prop
   with zfleave_i := Induction for zfleave Sort Prop
-  with zwleave_i := Induction for zwleave Sort Prop.
+  with zwleave_i := Induction for zwleave Sort Prop
+  with zscopeleave_i := Induction for zscopeleave Sort Prop
+  with zelemsleave_i := Induction for zelemsleave Sort Prop.
 Combined Scheme z_ind from zev_i, zevs_i, zstmt_i, zblock_i, ziter_i, zfor_i, zwhile_i, zthrow_i, zbreak_i,
-  zloopleave_i, zileave_i, zfleave_i, zwleave_i.
+  zloopleave_i, zileave_i, zfleave_i, zwleave_i, zscopeleave_i, zelemsleave_i.
 
 (* a breakOut that leaves a block names a scope and hands over a value (nil for the unary form) - also through loops *)
 Definition abr_ok (a:abr) : Prop := match a with AThrow _ => True | ABreak t v => t <> "" /\ v <> RNone end.
@@ -402,7 +450,9 @@ Lemma zexit_facts :
   (forall s e a s', zloopleave s e a s' -> abr_ok a) /\
   (forall k s arr i body acc a s', zileave k s arr i body acc a s' -> abr_ok a) /\
   (forall var to st s x first body a s', zfleave var to st s x first body a s' -> abr_ok a) /\
-  (forall cond body s first a s', zwleave cond body s first a s' -> abr_ok a).
+  (forall cond body s first a s', zwleave cond body s first a s' -> abr_ok a) /\
+  (forall s vars b a s', zscopeleave s vars b a s' -> abr_ok a) /\
+  (forall s l a s', zelemsleave s l a s' -> abr_ok a).
 Proof.
   apply z_ind; intros; try exact I; try assumption; try (cbn [abr_ok] in *; assumption).
   - (* breakOut "t" *) split; [assumption|discriminate].
@@ -2235,8 +2285,76 @@ Definition WhileLeaves (cond body:list stmt) (s:sstate) (first:bool) (a:abr) (s'
     LeavesL a s' r f (fc :: frest) below.
 (* a loop standing as a statement of the running frame f *)
 Definition ExprLeaves (s:sstate) (e:expr) (a:abr) (s':sstate) : Prop :=
+  forall r c f restf pre post, Mach s r c f restf ->
+    f_code f = pre ++ compile_expr e ++ post -> f_pos f = length pre -> Leaves0 a s' r f restf (c_values c).
+
+(* ---------------------------------------------------------------- an exit raised inside an operand *)
+(* what lies on the operand stack above the handler's / the named frame's base may be more than was said: nils for a throw (they stay
+   under the handler's nil), anything for breakOut (pop_clearing drops it) *)
+Definition pend_ok (a:abr) (pend:list value) : Prop := match a with AThrow _ => under pend | ABreak _ _ => True end.
+Lemma leaves0_weaken a s' r f restf pend vals :
+  pend_ok a pend -> Leaves0 a s' r f restf (pend ++ vals) -> Leaves0 a s' r f restf vals.
+Proof.
+  intros PO H. destruct a as [x|t v]; cbn [Leaves0 pend_ok] in *.
+  - intros inner ft rest h jn below_t CH HF HErr EB UJ LBT.
+    apply (H inner ft rest h (pend ++ jn) below_t CH HF HErr); [rewrite EB, app_assoc; reflexivity|apply Forall_app; split; assumption|exact LBT].
+  - intros k top fn fc rest jn below_n FN CH LT HB HC EB LBN.
+    apply (H k top fn fc rest (pend ++ jn) below_n FN CH LT HB HC); [rewrite EB, app_assoc; reflexivity|exact LBN].
+Qed.
+(* the running frame has moved on (operands evaluated: pend lies on the stack), the exit happens from there *)
+Lemma leaves0_back a s' r r1 f f1 restf rest1 pend vals :
+  Steps r r1 -> moved f f1 -> Forall2 kept restf rest1 -> pend_ok a pend ->
+  Leaves0 a s' r1 f1 rest1 (pend ++ vals) -> Leaves0 a s' r f restf vals.
+Proof.
+  intros S0 MV K PO H. apply (leaves0_weaken a s' r f restf pend vals PO).
+  destruct a as [x|t v]; cbn [Leaves0] in *.
+  - intros inner ft rest h jn below_t CH HF HErr EB UJ LBT.
+    destruct (chain_kept f restf inner ft rest f1 rest1 h (cv x) CH HF HErr MV K) as (inner1 & ft1 & rest1' & CH1 & HF1 & HE1 & HH1 & LEN1 & KR1 & FB1).
+    destruct (H inner1 ft1 rest1' h jn below_t CH1 HF1 HE1 EB UJ) as (r' & c' & rest' & ft0 & ST & K' & MT & CA).
+    { rewrite FB1. exact LBT. }
+    exists r', c', rest', ft0. split; [eapply steps_trans; eassumption|]. split; [eapply kept_all_trans; eassumption|].
+    split; [eapply moved_trans; eassumption|]. rewrite LEN1 in CA. exact CA.
+  - intros k top fn fc rest jn below_n FN CH LT HB HC EB LBN.
+    destruct (chain_kept_b f restf top fn fc rest f1 rest1 CH MV K HB) as (top1 & fn1 & fc1 & rest1' & CH1 & LT1 & HB1 & FB1 & KC1 & KR1).
+    destruct (H k top1 fn1 fc1 rest1' jn below_n FN CH1) as (r' & c' & fc' & rest' & ST & M & EV & K' & KR).
+    { rewrite LT1. exact LT. } { exact HB1. } { rewrite FB1, (kept_base _ _ KC1). exact HC. } { exact EB. } { rewrite FB1. exact LBN. }
+    exists r', c', fc', rest'. split; [eapply steps_trans; eassumption|]. split; [exact M|]. split; [exact EV|].
+    split; [eapply kept_trans; eassumption|eapply kept_all_trans; eassumption].
+Qed.
+
+(* a block entered as a new scope (call, then, else) by the running frame fc and left by a throw / by breakOut through that scope *)
+Definition ScopeLeaves (s:sstate) (vars:list (string*rvalue)) (b:list stmt) (a:abr) (s':sstate) : Prop :=
+  forall r1 c0 fc restf,
+    let newf := mk_frame (cur_ns c0) (compile_block b) None None (mvars vars) in
+    let c1 := push_value (push_frame c0 newf) VNil in
+    Good r1 c1 -> quirks r1 = ([], 0) -> c_frames c0 = fc :: restf -> Match s r1 (fc :: restf) -> f_base fc <= length (c_values c0) ->
+    Leaves0 a s' r1 fc restf (c_values c0).
+Lemma scope_leaves_throw s vars b y s3 : ThrowRuns (enter s vars) RNil (compile_block b) y s3 -> ScopeLeaves s vars b (AThrow y) (pop_scope s3).
+Proof.
+  intros TR r1 c0 fc restf newf c1 G D EF M B. cbn [Leaves0]. intros inner ft rest h jn below_t CH HF HErr EB UJ LBT.
+  exact (throw_in_scope s vars b y s3 r1 c0 fc restf inner ft rest h jn below_t TR G D EF M CH HF HErr EB UJ LBT).
+Qed.
+Lemma scope_leaves_break s vars b t v s3 : BreakRuns (enter s vars) RNil (compile_block b) t v s3 -> top_name s3 <> t ->
+  ScopeLeaves s vars b (ABreak t v) (pop_scope s3).
+Proof.
+  intros BR TN r1 c0 fc restf newf c1 G D EF M B. cbn [Leaves0]. intros k top fn fc0 rest jn below_n FN CH LT HB HC EB LBN.
+  exact (break_in_scope s vars b t v s3 r1 c0 fc restf k top fn fc0 rest jn below_n BR G D EF M B TN FN CH LT HB HC EB LBN).
+Qed.
+Lemma pend_ok_nil a : pend_ok a [].
+Proof. destruct a; cbn; [constructor|exact I]. Qed.
+(* ... read at a statement boundary (the shape of ThrowRuns / BreakRuns) *)
+Lemma expr_leaves_atm s e a s' : ExprLeaves s e a s' ->
   forall reg r c f restf below pre post, AtM s reg r c f restf below -> Fresh c below ->
     f_code f = pre ++ compile_expr e ++ post -> f_pos f = length pre -> Leaves0 a s' r f restf below.
+Proof.
+  intros H reg r c f restf below pre post (MA & LB & top & EV & RR) FR EC EP.
+  apply (leaves0_weaken a s' r f restf top below).
+  { destruct a; cbn; [exact (fresh_under c top below EV FR)|exact I]. }
+  rewrite <- EV. exact (H r c f restf pre post MA EC EP).
+Qed.
+Definition ElemsLeaves (s:sstate) (l:list expr) (a:abr) (s':sstate) : Prop :=
+  forall r c f restf pre post, Mach s r c f restf ->
+    f_code f = pre ++ flat_map compile_expr l ++ post -> f_pos f = length pre -> Leaves0 a s' r f restf (c_values c).
 
 (* any binary operator that opens a loop frame: the operands are evaluated, the operator pushes the frame mkf, and from the start of
    the first round the loop leaves *)
@@ -2253,7 +2371,7 @@ Lemma loop_expr_leaves s n a x va vb s1 s2 vars0 (mkf : string -> frame) a' s3 :
      Fresh c below -> f_base fc <= length below -> LeavesL a' s3 r (set_base (mkf (f_ns fc)) (length below)) (fc :: frest) below) ->
   ExprLeaves s (EBinary n a x) a' s3.
 Proof.
-  intros IHa IHx NA NB OP MK HL reg r c f restf below pre post (MA & LB & top & EV & RR) FR EC EP.
+  intros IHa IHx NA NB OP MK HL r c f restf pre post MA EC EP.
   rewrite compile_binary in EC. rewrite <- !app_assoc in EC.
   post_intro (IHa r c f restf pre (compile_expr x ++ [IBinary (lower n)] ++ post) MA EC EP) r1 c1 f1 rest1 S1 M1 EV1 MV1 P1 K1.
   destruct (after_operands_code f f1 pre _ _ MV1 EC EP P1) as [EC1 EP1].
@@ -2271,14 +2389,14 @@ Proof.
   destruct (MK (cur_ns c0)) as (ME & MN & MB & MS & MV).
   assert (HL' := HL (upd_cur r2 (push_value (push_frame c0 lf) VNil)) (push_value (push_frame c0 lf) VNil) (set_pos f2 (S (f_pos f2))) rest2 (c_values c)).
   rewrite <- NS0 in HL'. fold lf in HL'.
-  eapply (leaves0_of_loop a' s3 r _ f (set_pos f2 (S (f_pos f2))) restf rest2 (set_base lf (length (c_values c))) below top).
+  eapply (leaves0_of_loop a' s3 r _ f (set_pos f2 (S (f_pos f2))) restf rest2 (set_base lf (length (c_values c))) (c_values c) []).
   - eapply steps_trans; [exact S1|eapply steps_trans; [exact S2|exact S3]].
   - eapply moved_trans; [exact MV1|eapply moved_trans; [exact MV2|apply moved_set_pos]].
   - eapply kept_all_trans; eassumption.
   - cbn [f_err set_base]. exact ME.
-  - cbn [f_base set_base]. rewrite EV. reflexivity.
-  - exact (fresh_under c top below EV FR).
-  - rewrite <- EV. apply HL'.
+  - reflexivity.
+  - constructor.
+  - apply HL'.
     + split.
       * split; [exact G3|]. split; [reflexivity|]. split.
         -- apply match_upd. destruct MM2 as [F N]. split; [|exact N]. cbn [enter push_scope with_scopes st_scopes]. inversion F as [|sc f0 scs fs FM F' E1 E2]; subst.
@@ -2291,6 +2409,124 @@ Proof.
       * split; [reflexivity|]. exists [VNil]. split; [reflexivity|]. split; [reflexivity|]. split; [discriminate|nil_case].
     + apply fresh_one; reflexivity.
     + cbn. rewrite (moved_base _ _ MV2), (moved_base _ _ MV1); exact B.
+Qed.
+
+(* ---------------------------------------------------------------- switch: the chosen block is left early *)
+(* leaves0_of_loop for a frame nf that the machine reaches only through a virtual state r2 (every run from r2 that moves is a run from r) *)
+Lemma leaves0_via a s' r r2 f f2 restf rest2 nf below topv :
+  (forall r', Steps r2 r' -> r' <> r2 -> Steps r r') -> moved f f2 -> Forall2 kept restf rest2 -> f_err nf = None ->
+  f_base nf = length (topv ++ below) -> under topv ->
+  LeavesL a s' r2 nf (f2 :: rest2) (topv ++ below) -> Leaves0 a s' r f restf below.
+Proof.
+  intros S0 MV K NE NB UT H. destruct a as [x|t v]; cbn [LeavesL Leaves0] in *.
+  - intros inner ft rest h jn below_t CH HF HErr EB UJ LBT.
+    destruct (chain_kept f restf inner ft rest f2 rest2 h (cv x) CH HF HErr MV K) as (inner1 & ft1 & rest1' & CH1 & HF1 & HE1 & HH1 & LEN1 & KR1 & FB1).
+    destruct (H inner1 ft1 rest1' h (topv ++ jn) below_t CH1 NE HF1 HE1) as (r' & c' & rest' & ft0 & ST & N' & K' & MT & CA).
+    { rewrite EB, app_assoc. reflexivity. } { apply Forall_app. split; assumption. } { rewrite FB1. exact LBT. }
+    exists r', c', rest', ft0. split; [apply S0; assumption|]. split; [eapply kept_all_trans; eassumption|].
+    split; [eapply moved_trans; eassumption|]. rewrite LEN1 in CA. exact CA.
+  - intros k top fn fc rest jn below_n FN CH LT HB HC EB LBN.
+    destruct (chain_kept_b f restf top fn fc rest f2 rest2 CH MV K HB) as (top1 & fn1 & fc1 & rest1' & CH1 & LT1 & HB1 & FB1 & KC1 & KR1).
+    destruct (H k top1 fn1 fc1 rest1' (topv ++ jn) below_n FN CH1) as (r' & c' & fc' & rest' & ST & N' & M & EV & K' & KR).
+    { rewrite LT1. exact LT. } { rewrite FB1, NB, <- LBN, EB, !app_length. lia. } { exact HB1. }
+    { rewrite FB1, (kept_base _ _ KC1). exact HC. } { rewrite EB, app_assoc. reflexivity. } { rewrite FB1. exact LBN. }
+    exists r', c', fc', rest'. split; [apply S0; assumption|]. split; [exact M|]. split; [exact EV|].
+    split; [eapply kept_trans; eassumption|eapply kept_all_trans; eassumption].
+Qed.
+
+(* switch v do {..} up to the start of the chosen block: the operands, the operator, the statements of the body, and the pass that puts
+   the block's instructions into the switch frame (a virtual state: that pass also executes the block's first instruction) *)
+Lemma switch_to_block s n a b v body s1 s2 sw t ts r c f rest pre post :
+  lower n = "do" ->
+  (forall r c f rest pre post, Mach s r c f rest -> f_code f = pre ++ compile_expr a ++ post -> f_pos f = length pre ->
+     Post s1 (cv (RSwitch v)) (length (compile_expr a)) r c f rest) ->
+  (forall r c f rest pre post, Mach s1 r c f rest -> f_code f = pre ++ compile_expr b ++ post -> f_pos f = length pre ->
+     Post s2 (cv (RCode body)) (length (compile_expr b)) r c f rest) ->
+  zswitch (enter s2 []) body (sw_start v) sw -> sw_target sw = Some (t :: ts) -> leaf_first (t :: ts) ->
+  Mach s r c f rest -> f_code f = pre ++ compile_expr a ++ compile_expr b ++ [IBinary (lower n)] ++ post -> f_pos f = length pre ->
+  exists rV cV fV fcur rest2,
+    (forall r', Steps rV r' -> r' <> rV -> Steps r r') /\
+    AtM (enter s2 []) RNil rV cV fV (fcur :: rest2) (c_values c) /\ Fresh cV (c_values c) /\
+    f_code fV = compile_block (t :: ts) /\ f_pos fV = 0 /\ f_exit fV = Some (BSwitch true) /\ f_die fV = false /\ f_err fV = None /\
+    moved f fcur /\ f_pos fcur = f_pos f + (length (compile_expr a) + (length (compile_expr b) + 1)) /\ Forall2 kept rest rest2 /\
+    f_base fcur <= length (c_values c).
+Proof.
+  intros HN IHa IHb HW HT LF MA EC EP.
+  post_intro (IHa r c f rest pre (compile_expr b ++ [IBinary (lower n)] ++ post) MA EC EP) r1 c1 f1 rest1 S1 M1 EV1 MV1 P1 K1.
+  destruct (after_operands_code f f1 pre _ _ MV1 EC EP P1) as [EC1 EP1].
+  post_intro (IHb r1 c1 f1 rest1 (pre ++ compile_expr a) ([IBinary (lower n)] ++ post) M1 EC1 EP1) r2 c2 f2 rest2 S2 M2 EV2 MV2 P2 K2.
+  destruct (after_operands_code f1 f2 _ _ _ MV2 EC1 EP1 P2) as [EC2 EP2].
+  destruct M2 as (G2 & EF2 & MM2 & B2 & D2). destruct MA as (_ & _ & _ & B & _).
+  rewrite EV1 in EV2.
+  set (fcur := set_pos f2 (S (f_pos f2))).
+  set (c0 := set_values (set_frames c2 (fcur :: rest2)) (c_values c)).
+  set (newf := mk_frame (cur_ns c0) (compile_block body) (Some (BSwitch false)) None [("___switch", VSwitch (cv v) [] false false)]).
+  destruct (binary_run r2 c2 f2 rest2 _ _ (lower n) (cv (RSwitch v)) (cv (RCode body)) (c_values c)
+              (push_frame c0 newf) VNil G2 EF2 EC2 EP2 EV2) as [S3 G3].
+  { rewrite (moved_base _ _ MV2), (moved_base _ _ MV1); exact B. } { discriminate. } { discriminate. }
+  { rewrite lower_idem, HN. reflexivity. }
+  { destruct G2 as (_ & _ & _ & _ & _ & _ & SU); exact SU. }
+  destruct (enter_sw s2 v (compile_block body) _ c0 fcur rest2 G3) as (M3 & FR3 & SI3).
+  { rewrite quirks_upd_cur; exact D2. } { reflexivity. } { apply match_upd, match_set_pos; exact MM2. }
+  set (nf := set_base newf (length (c_values c0))) in *.
+  destruct (switch_body_vm _ _ _ _ HW _ _ nf (fcur :: rest2) (c_values c0) [] true M3 eq_refl FR3 eq_refl eq_refl SI3)
+    as (r4 & c4 & f4 & S4 & M4 & (t4 & EV4 & UT4) & NE4 & _ & MV4 & SI4 & DN4).
+  assert (BN : body <> []).
+  { intros ->. inversion HW; subst. cbn in HT. discriminate HT. }
+  destruct (NE4 BN) as (t5 & EV5). rewrite EV5 in EV4.
+  assert (t4 = VNil :: t5) by (apply (app_inv_tail (c_values c0)); rewrite <- EV4; reflexivity). subst t4.
+  pose proof M4 as (G4 & EF4 & MM4 & B4 & D4).
+  destruct LF as (i0 & code' & LC & LL).
+  assert (A4 : assoc "___switch" (f_vars f4) = Some (VSwitch (cv (sw_v sw)) (i0 :: code') (sw_now sw) (sw_has sw))).
+  { unfold SwInv, sw_val, sw_code in SI4. rewrite HT, LC in SI4. exact SI4. }
+  assert (X4 : f_exit f4 = Some (BSwitch false)) by (rewrite (moved_exit _ _ MV4); reflexivity).
+  assert (E4 : f_die f4 = false) by (rewrite (moved_die _ _ MV4); reflexivity).
+  pose proof (sw_back r4 c4 f4 (fcur :: rest2) _ i0 code' _ _ G4 EF4 DN4 X4 E4 LL A4) as BK.
+  set (fV := sw_frame f4 (i0 :: code')) in *. set (cV := set_frames c4 (fV :: fcur :: rest2)) in *.
+  assert (GV : Good (upd_cur r4 cV) cV) by (apply (good_upd r4 c4 cV G4); destruct G4 as (_ & _ & _ & _ & _ & _ & SU); exact SU).
+  assert (AV : AtM (enter s2 []) RNil (upd_cur r4 cV) cV fV (fcur :: rest2) (c_values c0)).
+  { split.
+    - split; [exact GV|]. split; [reflexivity|]. split.
+      + apply match_upd. destruct MM4 as [F N]. split; [|exact N]. inversion F as [|sc f0 scs fs (V & NS & BB) F' E1 E2]; subst.
+        constructor; [|exact F']. split; [exact V|split; [exact NS|exact BB]].
+      + split; [cbn; rewrite EV5; cbn; rewrite app_length, (moved_base _ _ MV4); cbn; lia|rewrite quirks_upd_cur; exact D4].
+    - split; [cbn; rewrite (moved_base _ _ MV4); reflexivity|]. exists (VNil :: t5). split; [exact EV5|].
+      split; [reflexivity|]. split; [discriminate|inversion UT4; assumption]. }
+  exists (upd_cur r4 cV), cV, fV, fcur, rest2.
+  split.
+  { intros r' S' N'. eapply steps_trans; [exact S1|eapply steps_trans; [exact S2|eapply steps_trans; [exact S3|eapply steps_trans; [exact S4|]]]].
+    eapply virtual_start; [exact BK|apply cfg_upd_cur|exact S'|exact N']. }
+  split; [exact AV|]. split. { exists (VNil :: t5). split; [exact EV5|exact UT4]. }
+  split. { cbn [fV sw_frame f_code set_pos set_code]. rewrite LC. reflexivity. }
+  split; [reflexivity|]. split; [reflexivity|]. split; [cbn; exact E4|].
+  split. { cbn. rewrite (moved_err _ _ MV4). reflexivity. }
+  split. { eapply moved_trans; [exact MV1|eapply moved_trans; [exact MV2|apply moved_set_pos]]. }
+  split. { cbn. rewrite P2, P1. lia. }
+  split; [eapply kept_all_trans; eassumption|].
+  cbn. rewrite (moved_base _ _ MV2), (moved_base _ _ MV1); exact B.
+Qed.
+
+(* the chosen block of a switch standing as a statement is left by a throw / by breakOut to a scope outside the switch *)
+Lemma switch_expr_leaves s n a b v body s1 s2 sw t ts ab s4 :
+  lower n = "do" ->
+  (forall r c f rest pre post, Mach s r c f rest -> f_code f = pre ++ compile_expr a ++ post -> f_pos f = length pre ->
+     Post s1 (cv (RSwitch v)) (length (compile_expr a)) r c f rest) ->
+  (forall r c f rest pre post, Mach s1 r c f rest -> f_code f = pre ++ compile_expr b ++ post -> f_pos f = length pre ->
+     Post s2 (cv (RCode body)) (length (compile_expr b)) r c f rest) ->
+  zswitch (enter s2 []) body (sw_start v) sw -> sw_target sw = Some (t :: ts) -> leaf_first (t :: ts) ->
+  (forall r c f restf below, AtM (enter s2 []) RNil r c f restf below -> Fresh c below -> f_code f = compile_block (t :: ts) -> f_pos f = 0 ->
+     LeavesL ab (pop_scope s4) r f restf below) ->
+  ExprLeaves s (EBinary n a b) ab (pop_scope s4).
+Proof.
+  intros HN IHa IHb HW HT LF HL r c f restf pre post MA EC EP.
+  rewrite compile_binary in EC. rewrite <- !app_assoc in EC.
+  destruct (switch_to_block s n a b v body s1 s2 sw t ts r c f restf pre post HN IHa IHb HW HT LF MA EC EP)
+    as (rV & cV & fV & fcur & rest2 & HS & AV & FRV & ECV & EPV & EXV & EDV & EEV & MVc & PC & KR & BC).
+  pose proof AV as (_ & LBV & _).
+  eapply (leaves0_via ab (pop_scope s4) r rV f fcur restf rest2 fV (c_values c) [] HS MVc KR EEV).
+  - symmetry. exact LBV.
+  - constructor.
+  - exact (HL rV cV fV (fcur :: rest2) (c_values c) AV FRV ECV EPV).
 Qed.
 
 Theorem vm_runs_z :
@@ -2310,7 +2546,9 @@ Theorem vm_runs_z :
   (forall s e a s', zloopleave s e a s' -> ExprLeaves s e a s') /\
   (forall k s arr i body acc a s', zileave k s arr i body acc a s' -> IterLeaves k s arr i body acc a s') /\
   (forall var to st s x first body a s', zfleave var to st s x first body a s' -> ForLeaves var to st s x first body a s') /\
-  (forall cond body s first a s', zwleave cond body s first a s' -> WhileLeaves cond body s first a s').
+  (forall cond body s first a s', zwleave cond body s first a s' -> WhileLeaves cond body s first a s') /\
+  (forall s vars b a s', zscopeleave s vars b a s' -> ScopeLeaves s vars b a s') /\
+  (forall s l a s', zelemsleave s l a s' -> ElemsLeaves s l a s').
 Proof.
   apply z_ind.
   - (* pure *) intros s e v HE r c f rest pre post (G & EF & M & B & D) EC EP.
@@ -3189,6 +3427,28 @@ Proof.
       * split; [cbn; rewrite (kept_base _ _ Ka); cbn; rewrite (moved_base _ _ MV2), (moved_base _ _ MV1); lia|rewrite quirks_upd_cur; exact D5].
     + split; [reflexivity|]. split; [eapply moved_trans; [exact MV1|eapply moved_trans; [exact MV2|eapply moved_trans; [apply (moved_set_pos f2 (S (f_pos f2)))|apply kept_moved; exact Ka]]]|].
       split; [rewrite (kept_pos _ _ Ka); cbn; rewrite P2, P1; lia|eapply kept_all_trans; [exact K1|eapply kept_all_trans; eassumption]].
+  - (* switch v do {..}, the chosen block is left by exitWith: the switch frame is gone, the handler's value handed over *)
+    intros s n a b v body s1 s2 sw t ts x s4 HN HA IHa HB IHb HW HT LF HK IHk r c f rest pre post MA EC EP.
+    rewrite compile_binary in *. rewrite !app_length. cbn [length]. rewrite <- !app_assoc in EC.
+    destruct (switch_to_block s n a b v body s1 s2 sw t ts r c f rest pre post HN IHa IHb HW HT LF MA EC EP)
+      as (rV & cV & fV & fcur & rest2 & HS & AV & FRV & ECV & EPV & EXV & EDV & EEV & MVc & PC & KR & BC).
+    destruct (IHk rV cV fV fcur rest2 (c_values c) [] AV FRV ECV EPV BC) as (r5 & c5 & fc5 & rest5 & S5 & M5 & EV5 & K5 & KR5).
+    assert (N5 : r5 <> rV).
+    { destruct AV as ((GV & EFV & _) & _). destruct GV as (CV & _). pose proof M5 as ((C5 & _) & EF5 & _).
+      eapply neq_by_frames; [exact CV|exact C5|]. rewrite EF5, EFV. cbn [length]. rewrite (forall2_length _ _ _ KR5). lia. }
+    exists r5, c5, fc5, rest5. split; [apply HS; assumption|]. split; [exact M5|]. split; [exact EV5|].
+    split; [eapply moved_trans; [exact MVc|apply kept_moved; exact K5]|].
+    split; [rewrite (kept_pos _ _ K5), PC; reflexivity|eapply kept_all_trans; eassumption].
+  - (* switch v do {..}, the chosen block is left by breakOut to the name of the switch's own scope *)
+    intros s n a b v body s1 s2 sw t ts t0 x s4 HN HA IHa HB IHb HW HT LF HK IHk TN r c f rest pre post MA EC EP.
+    rewrite compile_binary in *. rewrite !app_length. cbn [length]. rewrite <- !app_assoc in EC.
+    destruct (switch_to_block s n a b v body s1 s2 sw t ts r c f rest pre post HN IHa IHb HW HT LF MA EC EP)
+      as (rV & cV & fV & fcur & rest2 & HS & AV & FRV & ECV & EPV & EXV & EDV & EEV & MVc & PC & KR & BC).
+    destruct (own_break _ _ _ t0 x s4 rV cV fV fcur rest2 (c_values c) IHk (proj1 (zbreak_facts _ _ _ _ _ _ HK)) TN AV FRV ECV EPV BC)
+      as (r5 & c5 & fc5 & rest5 & S5 & N5 & M5 & EV5 & K5 & KR5).
+    exists r5, c5, fc5, rest5. split; [apply HS; assumption|]. split; [exact M5|]. split; [exact EV5|].
+    split; [eapply moved_trans; [exact MVc|apply kept_moved; exact K5]|].
+    split; [rewrite (kept_pos _ _ K5), PC; reflexivity|eapply kept_all_trans; eassumption].
   - (* no elements *) intros s r c f rest pre post MA EC EP. split; [|reflexivity].
     exists r, c, f, rest. split; [apply StepsRefl|]. split; [exact MA|]. split; [reflexivity|]. split; [apply moved_refl|].
     split; [cbn; lia|apply kept_all_refl].
@@ -3766,7 +4026,15 @@ Proof.
     split; [eapply kept_all_trans; eassumption|]. split; [eapply moved_trans; eassumption|]. cbn [length] in CA5. rewrite drop_scopes_S, LEN1 in CA5. exact CA5.
   - (* a loop standing as a statement is left by a throw *)
     intros s reg e y s3 rest0 HL IHl r c f restf below pre inner ft rest h jn below_t A FR EC EP CH HF HErr EB UJ LBT.
-    exact (IHl reg r c f restf below pre (compile_block_from false rest0) A FR EC EP inner ft rest h jn below_t CH HF HErr EB UJ LBT).
+    exact (expr_leaves_atm _ _ _ _ IHl reg r c f restf below pre (compile_block_from false rest0) A FR EC EP inner ft rest h jn below_t CH HF HErr EB UJ LBT).
+  - (* x = e, the expression is left by a throw *)
+    intros s reg n e y s3 rest0 HL IHl r c f restf below pre inner ft rest h jn below_t A FR EC EP CH HF HErr EB UJ LBT.
+    unfold compile_block in EC. cbn [compile_block_from compile_stmt app] in EC. rewrite <- app_assoc in EC.
+    exact (expr_leaves_atm _ _ _ _ IHl reg r c f restf below pre _ A FR EC EP inner ft rest h jn below_t CH HF HErr EB UJ LBT).
+  - (* private _x = e, the expression is left by a throw *)
+    intros s reg n e y s3 rest0 HL IHl r c f restf below pre inner ft rest h jn below_t A FR EC EP CH HF HErr EB UJ LBT.
+    unfold compile_block in EC. cbn [compile_block_from compile_stmt app] in EC. rewrite <- app_assoc in EC.
+    exact (expr_leaves_atm _ _ _ _ IHl reg r c f restf below pre _ A FR EC EP inner ft rest h jn below_t CH HF HErr EB UJ LBT).
   - (* breakOut: a statement, then the rest of the block that breaks out *)
     intros s reg st reg1 s1 st2 rest0 t v s' HS IHs HK IHk r c f restf below pre k top fn fc rest jn below_n A FR EC EP FN CH LT HB HC EB LBN.
     rewrite compile_block_cons2 in EC.
@@ -3899,7 +4167,15 @@ Proof.
     split; [exact M4|]. split; [exact EV4|]. split; [eapply kept_trans; eassumption|eapply kept_all_trans; eassumption].
   - (* a loop standing as a statement is left by breakOut *)
     intros s reg e t v s3 rest0 HL IHl r c f restf below pre k top fn fc rest jn below_n A FR EC EP FN CH LT HB HC EB LBN.
-    exact (IHl reg r c f restf below pre (compile_block_from false rest0) A FR EC EP k top fn fc rest jn below_n FN CH LT HB HC EB LBN).
+    exact (expr_leaves_atm _ _ _ _ IHl reg r c f restf below pre (compile_block_from false rest0) A FR EC EP k top fn fc rest jn below_n FN CH LT HB HC EB LBN).
+  - (* x = e, the expression is left by breakOut *)
+    intros s reg n e t v s3 rest0 HL IHl r c f restf below pre k top fn fc rest jn below_n A FR EC EP FN CH LT HB HC EB LBN.
+    unfold compile_block in EC. cbn [compile_block_from compile_stmt app] in EC. rewrite <- app_assoc in EC.
+    exact (expr_leaves_atm _ _ _ _ IHl reg r c f restf below pre _ A FR EC EP k top fn fc rest jn below_n FN CH LT HB HC EB LBN).
+  - (* private _x = e, the expression is left by breakOut *)
+    intros s reg n e t v s3 rest0 HL IHl r c f restf below pre k top fn fc rest jn below_n A FR EC EP FN CH LT HB HC EB LBN.
+    unfold compile_block in EC. cbn [compile_block_from compile_stmt app] in EC. rewrite <- app_assoc in EC.
+    exact (expr_leaves_atm _ _ _ _ IHl reg r c f restf below pre _ A FR EC EP k top fn fc rest jn below_n FN CH LT HB HC EB LBN).
   - (* {..} forEach / count [x0, ..] is left *)
     intros s n a x body x0 arr k s1 s2 ab s3 HN HK LF HA IHa HX IHx HI IHi.
     eapply (loop_expr_leaves s n a x (RCode body) (RArr (x0 :: arr)) s1 s2 (kvars k 0 x0) (fun ns => kframe k ns body (x0 :: arr) x0) ab s3 IHa IHx).
@@ -3942,6 +4218,111 @@ Proof.
     + intros ns. split; [reflexivity|]. split; [reflexivity|]. split; [reflexivity|]. split; [reflexivity|]. intros kk _. reflexivity.
     + intros r c fc frest below A FR HBf.
       eapply (IHw r c _ fc frest below 0); [exact A|exact FR|reflexivity|reflexivity|reflexivity|reflexivity|exact LFc|exact LFb|reflexivity|exact HBf].
+  - (* switch v do {..} is left by a throw out of the chosen block *)
+    intros s n a b v body s1 s2 sw t ts y s4 HN HA IHa HB IHb HW HT LF HK IHk.
+    apply (switch_expr_leaves s n a b v body s1 s2 sw t ts (AThrow y) s4 HN IHa IHb HW HT LF).
+    intros r c f restf below A FR EC EP. exact (leavesL_throw _ _ _ y s4 r c f restf below IHk A FR EC EP).
+  - (* switch v do {..} is left by breakOut out of the chosen block to a scope outside *)
+    intros s n a b v body s1 s2 sw t ts t0 x s4 HN HA IHa HB IHb HW HT LF HK IHk TN.
+    apply (switch_expr_leaves s n a b v body s1 s2 sw t ts (ABreak t0 x) s4 HN IHa IHb HW HT LF).
+    intros r c f restf below A FR EC EP. exact (leavesL_break _ _ _ t0 x s4 r c f restf below IHk TN A FR EC EP).
+  - (* the operand of a unary operator is left *)
+    intros s n a ab s1 NL HL IHl r c f restf pre post MA EC EP.
+    rewrite (compile_unary_nonlit n a NL), <- app_assoc in EC. exact (IHl r c f restf pre _ MA EC EP).
+  - (* the left operand of a binary operator is left *)
+    intros s n a b ab s1 HL IHl r c f restf pre post MA EC EP.
+    rewrite compile_binary, <- !app_assoc in EC. exact (IHl r c f restf pre _ MA EC EP).
+  - (* the right operand is left by breakOut: the left operand's value waits on the stack and is dropped *)
+    intros s n a b va t v s1 s2 HA IHa HL IHl r c f restf pre post MA EC EP.
+    rewrite compile_binary, <- !app_assoc in EC.
+    post_intro (IHa r c f restf pre _ MA EC EP) r1 c1 f1 rest1 S1 M1 EV1 MV1 P1 K1.
+    destruct (after_operands_code f f1 pre _ _ MV1 EC EP P1) as [EC1 EP1].
+    apply (leaves0_back (ABreak t v) s2 r r1 f f1 restf rest1 [cv va] (c_values c) S1 MV1 K1 I).
+    change ([cv va] ++ c_values c) with (cv va :: c_values c). rewrite <- EV1.
+    exact (IHl r1 c1 f1 rest1 (pre ++ compile_expr a) _ M1 EC1 EP1).
+  - (* an element of an array is left *)
+    intros s l ab s1 HL IHl r c f restf pre post MA EC EP.
+    rewrite compile_array, <- app_assoc in EC. exact (IHl r c f restf pre _ MA EC EP).
+  - (* call {..} as an operand, its block is left *)
+    intros s n a b s1 ab s2 HN NL HA IHa HS IHs r c f restf pre post MA EC EP.
+    rewrite (compile_unary_nonlit n a NL), <- app_assoc in EC.
+    post_intro (IHa r c f restf pre _ MA EC EP) r1 c1 f1 rest1 S1 M1 EV1 MV1 P1 K1.
+    destruct (after_operands_code f f1 pre _ _ MV1 EC EP P1) as [EC1 EP1].
+    destruct M1 as (G1 & EF1 & MM1 & B1 & D1). destruct MA as (_ & _ & _ & B & _).
+    set (c0 := set_values (set_frames c1 (set_pos f1 (S (f_pos f1)) :: rest1)) (c_values c)).
+    assert (TH : match get_variable c0 "_this" with Some t => t | None => VNil end = cv (this_of s1)).
+    { unfold get_variable. cbn [c_frames c0 set_values set_frames]. rewrite lookup_frames_set_pos.
+      destruct MM1 as [F1 _]. rewrite (lookup_match (lower "_this") eq_refl _ _ F1). unfold this_of.
+      change (lower "_this") with "_this". destruct (lookup_scopes "_this" (st_scopes s1)); reflexivity. }
+    destruct (unary_run r1 c1 f1 rest1 _ _ (lower n) (cv (RCode b)) (c_values c)
+                (push_frame c0 (mk_frame (cur_ns c0) (compile_block b) None None (mvars [("_this", this_of s1)]))) VNil G1 EF1 EC1 EP1 EV1) as [S2 G2].
+    { rewrite (moved_base _ _ MV1); exact B. } { discriminate. }
+    { rewrite lower_idem, HN. fold c0. cbn [cv]. unfold op_unary. cbn [String.eqb Ascii.eqb Bool.eqb]. rewrite TH. reflexivity. }
+    { destruct G1 as (_ & _ & _ & _ & _ & _ & SU); exact SU. }
+    apply (leaves0_back ab s2 r _ f (set_pos f1 (S (f_pos f1))) restf rest1 [] (c_values c) (steps_trans _ _ _ S1 S2)).
+    { eapply moved_trans; [exact MV1|apply moved_set_pos]. } { exact K1. } { apply pend_ok_nil. }
+    apply (IHs _ c0 (set_pos f1 (S (f_pos f1))) rest1 G2).
+    { rewrite quirks_upd_cur; exact D1. } { reflexivity. } { apply match_upd, match_set_pos; exact MM1. }
+    { cbn. rewrite (moved_base _ _ MV1); exact B. }
+  - (* x call {..} as an operand, its block is left *)
+    intros s n a x va b s1 s2 ab s3 HN HA IHa NNa HX IHx HS IHs r c f restf pre post MA EC EP.
+    rewrite compile_binary, <- !app_assoc in EC.
+    post_intro (IHa r c f restf pre _ MA EC EP) r1 c1 f1 rest1 S1 M1 EV1 MV1 P1 K1.
+    destruct (after_operands_code f f1 pre _ _ MV1 EC EP P1) as [EC1 EP1].
+    post_intro (IHx r1 c1 f1 rest1 (pre ++ compile_expr a) _ M1 EC1 EP1) r2 c2 f2 rest2 S2 M2 EV2 MV2 P2 K2.
+    destruct (after_operands_code f1 f2 _ _ _ MV2 EC1 EP1 P2) as [EC2 EP2].
+    destruct M2 as (G2 & EF2 & MM2 & B2 & D2). destruct MA as (_ & _ & _ & B & _).
+    rewrite EV1 in EV2.
+    set (c0 := set_values (set_frames c2 (set_pos f2 (S (f_pos f2)) :: rest2)) (c_values c)).
+    destruct (binary_run r2 c2 f2 rest2 _ _ (lower n) (cv va) (cv (RCode b)) (c_values c)
+                (push_frame c0 (mk_frame (cur_ns c0) (compile_block b) None None (mvars [("_this", va)]))) VNil G2 EF2 EC2 EP2 EV2) as [S3 G3].
+    { rewrite (moved_base _ _ MV2), (moved_base _ _ MV1); exact B. } { discriminate. } { apply nonnil_cv; exact NNa. }
+    { rewrite lower_idem, HN. reflexivity. }
+    { destruct G2 as (_ & _ & _ & _ & _ & _ & SU); exact SU. }
+    apply (leaves0_back ab s3 r _ f (set_pos f2 (S (f_pos f2))) restf rest2 [] (c_values c) (steps_trans _ _ _ S1 (steps_trans _ _ _ S2 S3))).
+    { eapply moved_trans; [exact MV1|eapply moved_trans; [exact MV2|apply moved_set_pos]]. } { eapply kept_all_trans; eassumption. } { apply pend_ok_nil. }
+    apply (IHs _ c0 (set_pos f2 (S (f_pos f2))) rest2 G3).
+    { rewrite quirks_upd_cur; exact D2. } { reflexivity. } { apply match_upd, match_set_pos; exact MM2. }
+    { cbn. rewrite (moved_base _ _ MV2), (moved_base _ _ MV1); exact B. }
+  - (* if true then {..} as an operand, its block is left *)
+    intros s n a b blk s1 s2 ab s3 HN HA IHa HB IHb HS IHs r c f restf pre post MA EC EP.
+    rewrite compile_binary, <- !app_assoc in EC.
+    post_intro (IHa r c f restf pre _ MA EC EP) r1 c1 f1 rest1 S1 M1 EV1 MV1 P1 K1.
+    destruct (after_operands_code f f1 pre _ _ MV1 EC EP P1) as [EC1 EP1].
+    post_intro (IHb r1 c1 f1 rest1 (pre ++ compile_expr a) _ M1 EC1 EP1) r2 c2 f2 rest2 S2 M2 EV2 MV2 P2 K2.
+    destruct (after_operands_code f1 f2 _ _ _ MV2 EC1 EP1 P2) as [EC2 EP2].
+    destruct M2 as (G2 & EF2 & MM2 & B2 & D2). destruct MA as (_ & _ & _ & B & _).
+    rewrite EV1 in EV2.
+    set (c0 := set_values (set_frames c2 (set_pos f2 (S (f_pos f2)) :: rest2)) (c_values c)).
+    destruct (binary_run r2 c2 f2 rest2 _ _ (lower n) (cv (RIf true)) (cv (RCode blk)) (c_values c)
+                (push_frame c0 (mk_frame (cur_ns c0) (compile_block blk) None None (mvars []))) VNil G2 EF2 EC2 EP2 EV2) as [S3 G3].
+    { rewrite (moved_base _ _ MV2), (moved_base _ _ MV1); exact B. } { discriminate. } { discriminate. } { rewrite lower_idem, HN. reflexivity. }
+    { destruct G2 as (_ & _ & _ & _ & _ & _ & SU); exact SU. }
+    apply (leaves0_back ab s3 r _ f (set_pos f2 (S (f_pos f2))) restf rest2 [] (c_values c) (steps_trans _ _ _ S1 (steps_trans _ _ _ S2 S3))).
+    { eapply moved_trans; [exact MV1|eapply moved_trans; [exact MV2|apply moved_set_pos]]. } { eapply kept_all_trans; eassumption. } { apply pend_ok_nil. }
+    apply (IHs _ c0 (set_pos f2 (S (f_pos f2))) rest2 G3).
+    { rewrite quirks_upd_cur; exact D2. } { reflexivity. } { apply match_upd, match_set_pos; exact MM2. }
+    { cbn. rewrite (moved_base _ _ MV2), (moved_base _ _ MV1); exact B. }
+  - (* if c then {..} else {..} as an operand, the chosen block is left *)
+    intros s n a b cnd x0 y0 s1 s2 ab s3 HN HA IHa HB IHb HS IHs r c f restf pre post MA EC EP.
+    rewrite compile_binary, <- !app_assoc in EC.
+    post_intro (IHa r c f restf pre _ MA EC EP) r1 c1 f1 rest1 S1 M1 EV1 MV1 P1 K1.
+    destruct (after_operands_code f f1 pre _ _ MV1 EC EP P1) as [EC1 EP1].
+    post_intro (IHb r1 c1 f1 rest1 (pre ++ compile_expr a) _ M1 EC1 EP1) r2 c2 f2 rest2 S2 M2 EV2 MV2 P2 K2.
+    destruct (after_operands_code f1 f2 _ _ _ MV2 EC1 EP1 P2) as [EC2 EP2].
+    destruct M2 as (G2 & EF2 & MM2 & B2 & D2). destruct MA as (_ & _ & _ & B & _).
+    rewrite EV1 in EV2.
+    set (c0 := set_values (set_frames c2 (set_pos f2 (S (f_pos f2)) :: rest2)) (c_values c)).
+    destruct (binary_run r2 c2 f2 rest2 _ _ (lower n) (cv (RIf cnd)) (cv (RArr [RCode x0; RCode y0])) (c_values c)
+                (push_frame c0 (mk_frame (cur_ns c0) (compile_block (if cnd then x0 else y0)) None None (mvars []))) VNil G2 EF2 EC2 EP2 EV2) as [S3 G3].
+    { rewrite (moved_base _ _ MV2), (moved_base _ _ MV1); exact B. } { discriminate. } { discriminate. }
+    { rewrite lower_idem, HN. destruct cnd; reflexivity. }
+    { destruct G2 as (_ & _ & _ & _ & _ & _ & SU); exact SU. }
+    apply (leaves0_back ab s3 r _ f (set_pos f2 (S (f_pos f2))) restf rest2 [] (c_values c) (steps_trans _ _ _ S1 (steps_trans _ _ _ S2 S3))).
+    { eapply moved_trans; [exact MV1|eapply moved_trans; [exact MV2|apply moved_set_pos]]. } { eapply kept_all_trans; eassumption. } { apply pend_ok_nil. }
+    apply (IHs _ c0 (set_pos f2 (S (f_pos f2))) rest2 G3).
+    { rewrite quirks_upd_cur; exact D2. } { reflexivity. } { apply match_upd, match_set_pos; exact MM2. }
+    { cbn. rewrite (moved_base _ _ MV2), (moved_base _ _ MV1); exact B. }
   - (* loop over an array: a round, then the rest in which the loop is left *)
     intros k s x rest0 i body acc reg s1 acc1 ab s' HB IHb KS KO HI IHi.
     destruct rest0 as [|x2 rest2]; [inversion HI|].
@@ -4011,6 +4392,18 @@ Proof.
     destruct A as ((G0 & EF0 & _) & _). destruct G0 as (C0 & _).
     apply (leavesL_transfer (ABreak t v) (pop_scope s2) r c f fc frest rB fB fc1 frest1 below C0 EF0 HS1 Ka Kb EE1 EB1).
     exact (leavesL_break _ _ _ t v s2 rB cB fB (fc1 :: frest1) below IHk TN AB FRB ECB EPB).
+  - (* a block in its own scope is left by a throw *) intros s vars b y s2 HT IHt. exact (scope_leaves_throw s vars b y s2 IHt).
+  - (* ... by breakOut *) intros s vars b t v s2 HK IHk TN. exact (scope_leaves_break s vars b t v s2 IHk TN).
+  - (* the first element is left *) intros s e l ab s1 HL IHl r c f restf pre post MA EC EP.
+    cbn [flat_map] in EC. rewrite <- app_assoc in EC. exact (IHl r c f restf pre _ MA EC EP).
+  - (* a later element is left by breakOut: the elements evaluated so far wait on the stack and are dropped *)
+    intros s e v l t v0 s1 s2 HE IHe NN HL IHl r c f restf pre post MA EC EP.
+    cbn [flat_map] in EC. rewrite <- app_assoc in EC.
+    post_intro (IHe r c f restf pre _ MA EC EP) r1 c1 f1 rest1 S1 M1 EV1 MV1 P1 K1.
+    destruct (after_operands_code f f1 pre _ _ MV1 EC EP P1) as [EC1 EP1].
+    apply (leaves0_back (ABreak t v0) s2 r r1 f f1 restf rest1 [cv v] (c_values c) S1 MV1 K1 I).
+    change ([cv v] ++ c_values c) with (cv v :: c_values c). rewrite <- EV1.
+    exact (IHl r1 c1 f1 rest1 (pre ++ compile_expr e) post M1 EC1 EP1).
 Qed.
 
 
@@ -4253,7 +4646,9 @@ Theorem ref_runs_z :
   (forall var to st s x first body a s', zfleave var to st s x first body a s' -> exists f0 k0, forall f, f0 <= f -> forall k, k0 <= k ->
       for_loop_f f var to st body k s x first = (oa a, s')) /\
   (forall cond body s first a s', zwleave cond body s first a s' -> exists f0 k0, forall f, f0 <= f -> forall k, k0 <= k -> forall n, first = Nat.eqb n 0 ->
-      while_loop_f f cond body k s n = (oa a, s')).
+      while_loop_f f cond body k s n = (oa a, s')) /\
+  (forall s vars b a s', zscopeleave s vars b a s' -> exists f0, forall f, f0 <= f -> in_scope_f f s (plain_scope_f s vars) b = (oa a, s')) /\
+  (forall s l a s', zelemsleave s l a s' -> exists f0, forall f, f0 <= f -> forall acc, go_arr f s l acc = (oa a, s')).
 Proof.
   apply z_ind.
   - (* pure *) intros s e v HE. exists (esize e). intros f L. exact (proj2 (proj1 (pure_ref _ _) e v HE) s f (renv_ok_of s) L).
@@ -4433,6 +4828,20 @@ Proof.
     transitivity (eval_binary (S f) s2 "do" (RSwitch v) (RCode body) (in_scope_f (S f)) plain_scope_f); [reflexivity|].
     rewrite eval_binary_switch. change (push_scope s2 (plain_scope_f s2 [])) with (enter s2 []). rewrite (IHw f) by lia.
     cbn [switch_after]. rewrite HT. rewrite (IHk f) by lia. cbn [oc]. destruct reg; reflexivity.
+  - (* switch v do {..}, the chosen block is left by exitWith *) intros s n a b v body s1 s2 sw t ts x s4 HN HA [fa IHa] HB [fb IHb] HW HT LF HK [fk IHk].
+    destruct (switch_body_ref _ _ _ _ HW) as [fw IHw].
+    exists (S (S (fa + fb + fw + fk))). intros [|[|f]] L; try lia.
+    rewrite eval_S_binary, (IHa (S f)), (IHb (S f)) by lia. rewrite HN.
+    transitivity (eval_binary (S f) s2 "do" (RSwitch v) (RCode body) (in_scope_f (S f)) plain_scope_f); [reflexivity|].
+    rewrite eval_binary_switch. change (push_scope s2 (plain_scope_f s2 [])) with (enter s2 []). rewrite (IHw f) by lia.
+    cbn [switch_after]. rewrite HT. rewrite (IHk f) by lia. reflexivity.
+  - (* switch v do {..}, the chosen block breaks out of the switch's own scope *) intros s n a b v body s1 s2 sw t ts t0 x s4 HN HA [fa IHa] HB [fb IHb] HW HT LF HK [fk IHk] TN.
+    destruct (switch_body_ref _ _ _ _ HW) as [fw IHw].
+    exists (S (S (fa + fb + fw + fk))). intros [|[|f]] L; try lia.
+    rewrite eval_S_binary, (IHa (S f)), (IHb (S f)) by lia. rewrite HN.
+    transitivity (eval_binary (S f) s2 "do" (RSwitch v) (RCode body) (in_scope_f (S f)) plain_scope_f); [reflexivity|].
+    rewrite eval_binary_switch. change (push_scope s2 (plain_scope_f s2 [])) with (enter s2 []). rewrite (IHw f) by lia.
+    cbn [switch_after]. rewrite HT. rewrite (IHk f) by lia. exact (break_own_f t0 x s4 (proj1 (zbreak_facts _ _ _ _ _ _ HK)) TN).
   - (* no elements *) intros s. exists 0. intros f _ acc. cbn. rewrite app_nil_r. reflexivity.
   - (* elements *) intros s e v s1 l vs s2 HE [fe IHe] NN HL [fl IHl]. exists (fe + fl). intros f L acc.
     cbn [go_arr]. rewrite (IHe f) by lia. fold (go_arr f).
@@ -4558,6 +4967,10 @@ Proof.
     rewrite catch_after_throw, (IHy f) by lia. rewrite handler_after_throw. reflexivity.
   - (* a loop standing as a statement is left by a throw *) intros s reg e y s3 rest HL [fl IHl]. exists (S fl). intros [|f] L; [lia|].
     cbn [eval_block]. rewrite (IHl f) by lia. reflexivity.
+  - (* x = e left by a throw *) intros s reg n e y s3 rest HL [fl IHl]. exists (S fl). intros [|f] L; [lia|].
+    cbn [eval_block]. rewrite (IHl f) by lia. reflexivity.
+  - (* private _x = e left by a throw *) intros s reg n e y s3 rest HL [fl IHl]. exists (S fl). intros [|f] L; [lia|].
+    cbn [eval_block]. rewrite (IHl f) by lia. reflexivity.
   - (* breakOut: a statement, then the rest *) intros s reg st reg1 s1 st2 rest t v s' HS [fs IHs] HK [fk IHk]. exists (S (fs + fk)). intros [|f] L; [lia|].
     rewrite (IHs f) by lia. unfold cont. apply IHk. lia.
   - (* breakOut "t" *) intros s reg n e t s1 rest HN NL HE [fe IHe] NT. exists (S (S (S fe))). intros [|f] L; [lia|]. cbn [eval_block].
@@ -4588,6 +5001,10 @@ Proof.
     rewrite (in_scope_break_pass (S f) s2 _ (if c then x0 else y0) t v s3) by (try (apply IHk; lia); exact TN). reflexivity.
   - (* a loop standing as a statement is left by breakOut *) intros s reg e t v s3 rest HL [fl IHl]. exists (S fl). intros [|f] L; [lia|].
     cbn [eval_block]. rewrite (IHl f) by lia. reflexivity.
+  - (* x = e left by breakOut *) intros s reg n e t v s3 rest HL [fl IHl]. exists (S fl). intros [|f] L; [lia|].
+    cbn [eval_block]. rewrite (IHl f) by lia. reflexivity.
+  - (* private _x = e left by breakOut *) intros s reg n e t v s3 rest HL [fl IHl]. exists (S fl). intros [|f] L; [lia|].
+    cbn [eval_block]. rewrite (IHl f) by lia. reflexivity.
   - (* forEach / count is left *) intros s n a x body x0 arr k s1 s2 ab s3 HN HK LF HA [fa IHa] HX [fx IHx] HI [fi IHi]. exists (S (S (fa + fx + fi))).
     intros [|f] L; [lia|]. rewrite eval_S_binary, (IHa f), (IHx f) by lia. rewrite <- HN.
     destruct f as [|f]; [lia|].
@@ -4609,6 +5026,45 @@ Proof.
     destruct (leaf_first_cons _ LFc) as (st & crest & ->).
     transitivity (eval_binary (S f) s2 "do" (RWhile (st :: crest)) (RCode body) (in_scope_f (S f)) plain_scope_f); [reflexivity|].
     rewrite eval_binary_while. apply IHw; [lia|lia|reflexivity].
+  - (* switch is left by a throw *) intros s n a b v body s1 s2 sw t ts y s4 HN HA [fa IHa] HB [fb IHb] HW HT LF HK [fk IHk].
+    destruct (switch_body_ref _ _ _ _ HW) as [fw IHw].
+    exists (S (S (fa + fb + fw + fk))). intros [|[|f]] L; try lia.
+    rewrite eval_S_binary, (IHa (S f)), (IHb (S f)) by lia. rewrite HN.
+    transitivity (eval_binary (S f) s2 "do" (RSwitch v) (RCode body) (in_scope_f (S f)) plain_scope_f); [reflexivity|].
+    rewrite eval_binary_switch. change (push_scope s2 (plain_scope_f s2 [])) with (enter s2 []). rewrite (IHw f) by lia.
+    cbn [switch_after]. rewrite HT. rewrite (IHk f) by lia. reflexivity.
+  - (* switch is left by breakOut *) intros s n a b v body s1 s2 sw t ts t0 x s4 HN HA [fa IHa] HB [fb IHb] HW HT LF HK [fk IHk] TN.
+    destruct (switch_body_ref _ _ _ _ HW) as [fw IHw].
+    exists (S (S (fa + fb + fw + fk))). intros [|[|f]] L; try lia.
+    rewrite eval_S_binary, (IHa (S f)), (IHb (S f)) by lia. rewrite HN.
+    transitivity (eval_binary (S f) s2 "do" (RSwitch v) (RCode body) (in_scope_f (S f)) plain_scope_f); [reflexivity|].
+    rewrite eval_binary_switch. change (push_scope s2 (plain_scope_f s2 [])) with (enter s2 []). rewrite (IHw f) by lia.
+    cbn [switch_after]. rewrite HT. rewrite (IHk f) by lia. exact (break_pass_f t0 x s4 TN).
+  - (* operand of a unary operator *) intros s n a ab s1 NL HL [fl IHl]. exists (S fl). intros [|f] L; [lia|].
+    rewrite (eval_S_unary _ _ _ _ NL), (IHl f) by lia. destruct ab; reflexivity.
+  - (* left operand *) intros s n a b ab s1 HL [fl IHl]. exists (S fl). intros [|f] L; [lia|].
+    rewrite eval_S_binary, (IHl f) by lia. destruct ab; reflexivity.
+  - (* right operand, breakOut *) intros s n a b va t v s1 s2 HA [fa IHa] HL [fl IHl]. exists (S (fa + fl)). intros [|f] L; [lia|].
+    rewrite eval_S_binary, (IHa f), (IHl f) by lia. reflexivity.
+  - (* array *) intros s l ab s1 HL [fl IHl]. exists (S fl). intros [|f] L; [lia|]. rewrite eval_S_arr. apply IHl. lia.
+  - (* call {..} *) intros s n a b s1 ab s2 HN NL HA [fa IHa] HS [fs IHs]. exists (S (S (fa + fs))). intros [|[|f]] L; try lia.
+    rewrite (eval_S_unary _ _ _ _ NL), (IHa (S f)) by lia. rewrite HN.
+    change (eval_unary (S f) s1 "call" (RCode b) (in_scope_f (S f)) plain_scope_f)
+      with (in_scope_f (S f) s1 (plain_scope_f s1 [("_this", this_of s1)]) b).
+    apply IHs. lia.
+  - (* x call {..} *) intros s n a x va b s1 s2 ab s3 HN HA [fa IHa] NNa HX [fx IHx] HS [fs IHs]. exists (S (S (fa + fx + fs))). intros [|[|f]] L; try lia.
+    rewrite eval_S_binary, (IHa (S f)), (IHx (S f)) by lia. rewrite HN.
+    transitivity (eval_binary (S f) s2 "call" va (RCode b) (in_scope_f (S f)) plain_scope_f);
+      [destruct NNa as [A1 A2]; destruct va; try contradiction; reflexivity|].
+    change (eval_binary (S f) s2 "call" va (RCode b) (in_scope_f (S f)) plain_scope_f)
+      with (in_scope_f (S f) s2 (plain_scope_f s2 [("_this", va)]) b).
+    apply IHs. lia.
+  - (* if true then {..} *) intros s n a b blk s1 s2 ab s3 HN HA [fa IHa] HB [fb IHb] HS [fs IHs]. exists (S (S (fa + fb + fs))). intros [|[|f]] L; try lia.
+    rewrite eval_S_binary, (IHa (S f)), (IHb (S f)) by lia. rewrite HN.
+    transitivity (in_scope_f (S f) s2 (plain_scope_f s2 []) blk); [reflexivity|]. apply IHs. lia.
+  - (* if c then {..} else {..} *) intros s n a b c x0 y0 s1 s2 ab s3 HN HA [fa IHa] HB [fb IHb] HS [fs IHs]. exists (S (S (fa + fb + fs))). intros [|[|f]] L; try lia.
+    rewrite eval_S_binary, (IHa (S f)), (IHb (S f)) by lia. rewrite HN.
+    transitivity (in_scope_f (S f) s2 (plain_scope_f s2 []) (if c then x0 else y0)); [reflexivity|]. apply IHs. lia.
   - (* loop over an array: a round, then the rest *) intros k s x rest0 i body acc reg s1 acc1 ab s' HB [fb IHb] KS KO HI [fi IHi]. exists (fb + fi).
     intros f L [|kk] LK; [lia|]. cbn [iterate_f]. fold (iterate_f f). rewrite kvars_iter.
     change (push_scope s (plain_scope_f s (kvars k i x))) with (enter s (kvars k i x)).
@@ -4660,4 +5116,15 @@ Proof.
     change (push_scope s (plain_scope_f s [])) with (enter s []).
     replace (match n with O => RNil | _ => RNone end) with (if first then RNil else RNone) by (subst first; destruct n; reflexivity).
     rewrite (IHc f) by lia. cbn [oc]. rewrite (IHk f) by lia. exact (break_pass_f t v s2 TN).
+  - (* a scope left by a throw *) intros s vars b y s2 HT [ft IHt]. exists ft. intros f L.
+    apply (in_scope_throw f s (plain_scope_f s vars) b y s2). apply IHt. exact L.
+  - (* a scope left by breakOut *) intros s vars b t v s2 HK [fk IHk] TN. exists fk. intros f L.
+    apply (in_scope_break_pass f s (plain_scope_f s vars) b t v s2); [apply IHk; exact L|exact TN].
+  - (* the first element is left *) intros s e l ab s1 HL [fl IHl]. exists fl. intros f L acc.
+    cbn [go_arr]. rewrite (IHl f) by lia. destruct ab; reflexivity.
+  - (* a later element is left *) intros s e v l t v0 s1 s2 HE [fe IHe] NN HL [fl IHl]. exists (fe + fl). intros f L acc.
+    cbn [go_arr]. rewrite (IHe f) by lia. fold (go_arr f).
+    transitivity (go_arr f s1 l (v :: acc)).
+    + destruct NN as [A1 A2]. destruct v; try contradiction; reflexivity.
+    + apply IHl. lia.
 Qed.
